@@ -34,7 +34,7 @@ def run(pid, tier, seed, replay):
     ctx.trusted.append("modelled, not verified: the cursors partition is a single-node, single-replica commit log (ALL-policy publish = append + commit); the lock in the interleaving model is the sync.RWMutex of cursorManager, its fairness and Go scheduling are not modelled; leader change of the cursors partition on a multi-node cluster is represented by the cache purge it causes")
     ctx.coq_cone("Properties/C11.v")
     env = {"VERIF_N": 5 if tier == "quick" else 40, "VERIF_ROUNDS": 6 if tier == "quick" else 60}
-    lines = ctx.go_driver("server", ["server/srv_test.go", "server/c11_test.go"], "^TestVerifC11$", env=env, timeout=3000)
+    lines = ctx.go_driver("server", ["server/srv_test.go", "server/partdrv_test.go", "server/c02_test.go", "server/c11_test.go"], "^TestVerifC11$", env=env, timeout=3000)
     cases = [l for l in lines if l.get("k") == "cur"]
     conc = [l for l in lines if l.get("k") == "conc"]
     for c in cases:
